@@ -427,4 +427,41 @@ func c02Jsonp(c *core.Ctx) {
 		ok = ok && fromD && fieldOf(info, od[0].Recv) == "jsonp.Polling"
 	}
 	c.Check(R, "transports.(*jsonp).OnData/d-field→Polling.OnData", u.Pos(), ok, "one OnData with a buffer built from the d field; OnError on parse failure")
+	// order of the two un-escaping passes: first rSlashes (\\n → LF, keeping \\\\n) on the raw field, then rDoubleSlashes (\\\\n → \\n) on its result
+	if len(od) == 1 {
+		order := false
+		ast.Inspect(od[0].Arg(0), func(n ast.Node) bool {
+			ce, isC := n.(*ast.CallExpr)
+			if !isC || u.CalleeKey(ce) != "regexp.(*Regexp).ReplaceAllString" {
+				return true
+			}
+			se, _ := ce.Fun.(*ast.SelectorExpr)
+			if se == nil {
+				return true
+			}
+			if v, isV := core.ObjOf(info, se.X).(*types.Var); !isV || v.Name() != "rDoubleSlashes" {
+				return true
+			}
+			// its input is the result of rSlashes.ReplaceAllStringFunc(data.Get("d"), …)
+			d, k := u.SingleDef(ce.Args[0])
+			if !k {
+				return true
+			}
+			inner, isI := ast.Unparen(d).(*ast.CallExpr)
+			if !isI || u.CalleeKey(inner) != "regexp.(*Regexp).ReplaceAllStringFunc" {
+				return true
+			}
+			is, _ := inner.Fun.(*ast.SelectorExpr)
+			if is == nil {
+				return true
+			}
+			if v, isV := core.ObjOf(info, is.X).(*types.Var); isV && v.Name() == "rSlashes" {
+				if g0, isG := ast.Unparen(inner.Args[0]).(*ast.CallExpr); isG && calleeNameOf(g0) == "Get" {
+					order = true
+				}
+			}
+			return true
+		})
+		c.Check(R, "transports.(*jsonp).OnData/unescape-order(rSlashes≺rDoubleSlashes)", od[0].Pos(), order, "single escaped newlines are decoded on the raw d field first, doubled ones on that result (the reverse order turns a literal backslash-n into a line feed)")
+	}
 }
